@@ -18,7 +18,7 @@ pub const DEF: PropDef = PropDef {
     run,
     replay,
     level: "fault_enumeration",
-    rule: "fault enumeration: (handshake string, suite, message index or transport phase, side, failure cause, repetitions 1..3 / scattered faults); causes on write: output buffer at every field boundary -1/0/+1 below the predicted length, payload too large, PSK for this message not yet supplied (then set_psk), out-of-turn; on read: a flipped bit in every field, truncation at every field boundary, extension, foreign message of a parallel session, payload buffer too small/empty, missing PSK, out-of-turn, message > 65535, a correctly encrypted but invalid static key from a peer holding the right keys (P-256: fails at the DH token after the s field was accepted); transport: undersized buffers, oversize payload/message, garbage, truncated, flipped, wrong direction on one-way. Oracle: state snapshot (turn, finished, handshake hash, remote static, payload-encrypted flag, nonces) unchanged by the failed call, the retried step succeeds, every later handshake message, the final hash and the first transport messages in both directions are byte-identical to the fault-free run and accepted by the peer. Non-trivial = the injected call really returned Err; distinct by (name, suite, index, cause, repetitions)",
+    rule: "fault enumeration: (handshake string, suite, message index or transport phase, side, failure cause, repetitions 1..3 / scattered faults); causes on write: output buffer at every field boundary -1/0/+1 below the predicted length, payload too large, PSK for this message not yet supplied (then set_psk), out-of-turn; on read: a flipped bit in every field, truncation at every field boundary, extension, foreign message of a parallel session, payload buffer too small/empty, missing PSK, out-of-turn, message > 65535, a correctly encrypted but invalid static key from a peer holding the right keys (P-256: fails at the DH token after the s field was accepted); transport: undersized buffers, oversize payload/message, garbage, truncated, flipped, wrong direction on one-way, a read / write attempted while the counter stands at 2^64-1 (moved there and back by the caller). Oracle: state snapshot (turn, finished, handshake hash, remote static, payload-encrypted flag, nonces) unchanged by the failed call, the retried step succeeds, every later handshake message, the final hash and the first transport messages in both directions are byte-identical to the fault-free run and accepted by the peer. Non-trivial = the injected call really returned Err; distinct by (name, suite, index, cause, repetitions)",
     technique: "differential fault injection (faulty run vs fault-free run under a scripted RNG), enumerated from reference-model field maps + proptest for scattered multi-fault schedules",
     assumptions: &["ephemeral keys are a function of the message index (scripted RNG / fixed ephemerals), so the fault-free run is the specification of the faulty one; while an injected failing call runs, the scripted RNG yields different bytes, so randomness drawn AND KEPT by a failing call is visible in the transcript"],
     panic_is_violation: false,
@@ -62,6 +62,13 @@ pub enum Cause {
     TRBig(bool),
     TOneWayRead,
     TOneWayWrite,
+    /// a write attempted while the sending counter stands at the reserved value 2^64-1 (placed
+    /// there with the hook and moved back afterwards): fails with the exhaustion error and must
+    /// leave no other trace
+    TExhaustWrite(bool),
+    /// a read attempted while the receiving counter stands at 2^64-1 (set_receiving_nonce there
+    /// and back)
+    TExhaustRead(bool),
 }
 
 #[derive(Clone, Debug, Serialize, Deserialize, PartialEq, Eq, Hash)]
@@ -476,6 +483,25 @@ fn run_session(spec: &SessionSpec, faults: &[Fault], plen: usize) -> Result<Outc
                                 let mut buf = vec![0u8; 70000];
                                 Some(t.read_message(&m, &mut buf))
                             },
+                            Cause::TExhaustWrite(actor_i) if *actor_i == i_sends => {
+                                let t = if *actor_i { &mut ti } else { &mut tr };
+                                let orig = t.sending_nonce();
+                                t.verif_set_sending_nonce(u64::MAX);
+                                let mut buf = vec![0u8; payload.len() + 16];
+                                let r = t.write_message(&payload, &mut buf);
+                                t.verif_set_sending_nonce(orig);
+                                Some(r)
+                            },
+                            Cause::TExhaustRead(actor_i) if *actor_i != i_sends => {
+                                let t = if *actor_i { &mut ti } else { &mut tr };
+                                let orig = t.receiving_nonce();
+                                t.set_receiving_nonce(u64::MAX);
+                                let m = expand(spec.key_seed, 78 + rep as u64, 40);
+                                let mut buf = vec![0u8; 100];
+                                let r = t.read_message(&m, &mut buf);
+                                t.set_receiving_nonce(orig);
+                                Some(r)
+                            },
                             Cause::TOneWayRead if oneway && i_sends => {
                                 let mut buf = vec![0u8; 100];
                                 Some(ti.read_message(&[0u8; 40], &mut buf))
@@ -820,6 +846,8 @@ pub fn faults_for(spec: &SessionSpec, plen: usize) -> Vec<Fault> {
         out.push(Fault { idx: nm, cause: Cause::TRPbuf(actor_i, 0), reps: 1 });
         out.push(Fault { idx: nm, cause: Cause::TRPbuf(actor_i, plen.saturating_sub(1)), reps: 1 });
         out.push(Fault { idx: nm, cause: Cause::TRBig(actor_i), reps: 1 });
+        out.push(Fault { idx: nm, cause: Cause::TExhaustWrite(actor_i), reps: 1 });
+        out.push(Fault { idx: nm, cause: Cause::TExhaustRead(actor_i), reps: 2 });
     }
     out.push(Fault { idx: nm, cause: Cause::AfterFinishWrite, reps: 1 });
     out.push(Fault { idx: nm, cause: Cause::AfterFinishRead, reps: 2 });
